@@ -174,11 +174,12 @@ Proof. exact r16_header_recursion. Qed.
 Theorem c16_claims_recursion_refuted :
   is_err (jwt_decode_jws (all_but 17) (wprims jclaims) default_jws_reg (AKey k_oct) (tok "e30.W10.e30")) ERuntime = true.
 Proof. exact r17_claims_recursion. Qed.
-Theorem c16_epk_use_list_refuted :
-  is_err (jwe_decrypt_compact (all_but 18)
-            (W (ecdh_header (epk_ec "P-256" [("use", PList []); ("key_ops", PList [])]%string))) default_jwe_reg (AKey k_ec)
-            (tok "e30..AAAAAAAAAAAAAAAA..")) EType = true.
-Proof. exact r18_epk_use_list. Qed.
+(* function level: the "use" validator (VChoiceStr) now refuses a list before
+   validate_dict_key_use_operations is reached through import_key *)
+Theorem c16_use_list_refuted :
+  is_err (validate_use_ops (all_but 18) (D [("use", PList []); ("key_ops", PList [])]%string)) EType = true /\
+  is_err (validate_use_ops all_guards (D [("use", PList []); ("key_ops", PList [])]%string)) EValue = true.
+Proof. exact r18_use_list. Qed.
 
 Print Assumptions c16_jws_deserialize_compact.
 Print Assumptions c16_jwt_decode_jws.
@@ -211,4 +212,4 @@ Print Assumptions c16_rfc7797_wrong_key_kind_refuted.
 Print Assumptions c16_missing_encrypted_key_refuted.
 Print Assumptions c16_header_recursion_refuted.
 Print Assumptions c16_claims_recursion_refuted.
-Print Assumptions c16_epk_use_list_refuted.
+Print Assumptions c16_use_list_refuted.
